@@ -26,7 +26,7 @@ func main() {
 	}
 	prop := os.Args[1]
 	if prop == "render" { // development aid: vcheck render <grammar-id> <pkg>
-		for _, g := range append(corpus.Fixed(), corpus.Awkward()...) {
+		for _, g := range append(append(corpus.Fixed(), corpus.Awkward()...), corpus.Random(1, 200)...) {
 			if g.ID == os.Args[2] {
 				fmt.Print(g.Render(os.Args[3], "simwork/act"))
 				return
